@@ -489,7 +489,7 @@ pub fn w3(ctx: &mut Ctx, tier: Tier, sink: Sink) {
     let attrs = attr_alphabet();
     let flagpats: [u8; 8] = [0x01, 0x00, 0x02, 0x03, 0x04, 0x20, 0x3c, 0x3f];
     let vendors: [u16; 3] = [0, 1, 0xffff];
-    let dev = if tier.thorough() { Some(3) } else { Some(2) };
+    let dev = if tier.thorough() { None } else { Some(3) };
     let mut buf: Vec<u8> = Vec::new();
     let mut msg: Vec<u8> = Vec::new();
     let st = explore(dev, |c: &mut Chooser| {
